@@ -150,7 +150,11 @@ def build(case):
 
 
 def relevant(mechanism):
-    return mechanism.startswith(('c05:', 'harness'))
+    # (a block's own cancel signal showing up anywhere else - in a later block, in another
+    # activity, out of run() - is a block that failed as neither itself nor Concurrent)
+    return mechanism.startswith(('c05:', 'harness', 'foreign-cancelscope',
+                                 'run-ended-with-signal:CancelScope', 'kernel-revoked',
+                                 'kernel-signal'))
 
 
 def nontrivial(env, sess):
